@@ -173,6 +173,10 @@ def sameAssociativeOperator (op : Tk) : Node → Bool
 /-- printElse's test `len(Alternative.Statements) == 1 && Alternative.Statements[0].Value().Type() == token.IF` -/
 inductive ElseKind | nilFirst | elseIf | block
 
+/-- printElse: in compact mode the comments (which are not printed) do not count -/
+def elseStmts (compact : Bool) (l : List (Option Node)) : List (Option Node) :=
+  if compact then l.filter (fun s => !isCommentO s) else l
+
 def elseKind : List (Option Node) → ElseKind
   | [none] => .nilFirst
   | [some a] => if a.tok.type = .IF then .elseIf else .block
@@ -243,9 +247,9 @@ def printNode (tbl : Nat → Bool) (n : Node) (ps : PrintState) : PR :=
         match alt with
         | none => .ok ps
         | some l =>
-          match elseKind l with
+          match elseKind (elseStmts pse.compact l) with
           | .nilFirst => .error .nilNode          -- Statements[0].Value() on a nil node
-          | .elseIf => printHead tbl l (if pse.compact then pse.print [32] else pse)
+          | .elseIf => printHead tbl pse.compact l (if pse.compact then pse.print [32] else pse)
           | .block => printBlock tbl l pse
   | .builtin t params =>
     match printList tbl params ((ps.print t.lit).print [40]) 0 with
@@ -316,11 +320,11 @@ def printO (tbl : Nat → Bool) (n : Option Node) (ps : PrintState) : PR :=
   | none => .error .nilNode
   | some n => printNode tbl n ps
 
-/-- `list[0].PrettyPrint(ps)` (used for `else if`) -/
-def printHead (tbl : Nat → Bool) (l : List (Option Node)) (ps : PrintState) : PR :=
+/-- `stmts[0].PrettyPrint(ps)` of printElse (`else if`): the first statement, the first non-comment one in compact mode -/
+def printHead (tbl : Nat → Bool) (skipComments : Bool) (l : List (Option Node)) (ps : PrintState) : PR :=
   match l with
   | [] => .ok ps
-  | x :: _ => printO tbl x ps
+  | x :: xs => if skipComments && isCommentO x then printHead tbl skipComments xs ps else printO tbl x ps
 
 /-- `ps.ComaList(list)` (i = index of the first element) -/
 def printList (tbl : Nat → Bool) (l : List (Option Node)) (ps : PrintState) (i : Nat) : PR :=
